@@ -19,6 +19,18 @@ theorem node_numKeys_roundtrip (leaf : Bool) (n : Nat) (h : n < 2 ^ 32) :
 theorem node_isLeaf_roundtrip (leaf : Bool) (n : Nat) (h : n < 2 ^ 32) :
     isLeaf (bitsOfMeta (metaWord leaf n)) = leaf := metaWord_isLeaf leaf n h
 
+/-- Node layout: with `maxKeys = pageSize/16 - 1` the key / value words of the entries, the
+page-id word and the meta word are distinct words inside the page (generated `keyOffset`,
+`valOffset`). -/
+theorem node_layout_words (ps : Nat) (hps : 32 ≤ ps) (hlt : ps < 2 ^ 40) (i j : Nat)
+    (hi : i < (Cfg.ofPageSize ps).maxKeys) (hj : j < (Cfg.ofPageSize ps).maxKeys) :
+    (keyOffset (w i)).toNat = 2 * i ∧ (valOffset (w i)).toNat = 2 * i + 1 ∧
+    (keyOffset (w (Cfg.ofPageSize ps).maxKeys)).toNat = 2 * (Cfg.ofPageSize ps).maxKeys ∧
+    (valOffset (w (Cfg.ofPageSize ps).maxKeys)).toNat = 2 * (Cfg.ofPageSize ps).maxKeys + 1 ∧
+    (valOffset (w (Cfg.ofPageSize ps).maxKeys)).toNat < ps / 8 ∧
+    (i ≠ j → (keyOffset (w i)).toNat ≠ (keyOffset (w j)).toNat) :=
+  layout_words ps hps hlt i j hi hj
+
 /-- `n.search(k)`: the entries before the result have keys `< k`, the entry at the result
 (if any) has a key `>= k`. -/
 theorem node_search_spec {β : Type} (es : List (Key × β)) (k : Key) :
